@@ -147,6 +147,8 @@ impl Probes {
 pub enum AbortReason {
     StepCap,
     SoloBudget { tid: usize, steps: u64 },
+    /// one call took more atomic steps of its own than any bounded retry can explain
+    CallBudget { tid: usize, steps: u64 },
     Foreign,
 }
 
@@ -160,6 +162,9 @@ pub struct World {
     pub cur_call: Vec<Option<usize>>,
     pub steps: u64,
     pub step_cap: u64,
+    /// own atomic steps of the current call per thread, and their cap
+    pub call_steps: Vec<u64>,
+    pub call_cap: u64,
     pub sched_log: Vec<u8>,
     pub replay: Vec<u8>,
     pub replay_pos: usize,
@@ -211,6 +216,8 @@ impl World {
             cur_call: vec![None; n],
             steps: 0,
             step_cap: 200_000,
+            call_steps: vec![0; n],
+            call_cap: 20_000,
             sched_log: Vec::new(),
             replay: Vec::new(),
             replay_pos: 0,
@@ -359,6 +366,15 @@ impl World {
     /// Book-keeping of one hooked atomic step of thread `tid` (before it executes).
     fn on_step(&mut self, tid: usize, op: Op, addr: usize, _size: usize) {
         self.steps += 1;
+        if tid < self.n && self.cur_call[tid].is_some() {
+            self.call_steps[tid] += 1;
+            if self.call_steps[tid] > self.call_cap && self.aborted.is_none() {
+                self.aborted = Some(AbortReason::CallBudget {
+                    tid,
+                    steps: self.call_steps[tid],
+                });
+            }
+        }
         // solo windows
         if let Some((t, used)) = self.solo_active {
             if t == tid {
@@ -399,6 +415,7 @@ impl World {
     /// The call of `tid` returned: ends a solo window.
     pub fn call_end(&mut self, tid: usize) {
         self.cur_call[tid] = None;
+        self.call_steps[tid] = 0;
         if let Some((t, _)) = self.solo_active
             && t == tid
         {
